@@ -162,10 +162,17 @@ def registry_history(run, model, rng):
     comp_ids = ["2000", "1234", "ABCD"]
     comps = {cr: {c: "name-%s-%s" % (cr, c) for c in rng.sample(comp_ids, rng.randrange(1, 4))} for cr in rng.sample(["O", "B", "H", "T"], rng.randrange(2, 5))}
     hist = []
-    for _ in range(rng.randrange(3, 7)):
+    for _ in range(rng.randrange(3, 9)):
         creator = rng.choice([b"O", b"B", b"H", b"T", b"P"])
         comp = int(rng.choice(comp_ids), 16)
         secs = [(b"UD", 1, 7, comp, bytes(rng.randrange(256) for _ in range(8)))]
+        if rng.random() < 0.75:
+            # a primary SRC whose reference code may hit an entry of the message registry (repeated codes, codes earlier in the
+            # registry than the previous hit, unregistered codes in between: the look-up must not depend on earlier look-ups)
+            from props import c18
+            ref = rng.choice(["BD", "11", "BC", "B7"]) + rng.choice(["8D", "00", "12"]) + rng.choice(["8D12", "1234", "E500", "00E5", "2030", "8D00"])
+            body, _words = c18.src_body(rng, ref, proc=rng.choice([None, "BMC0001"]), wcount=9)
+            secs.insert(0, (b"PS", 1, 1, comp, body))
         if rng.random() < 0.5:
             secs.append((b"ED", 1, 7, int(rng.choice(comp_ids), 16), rng.choice([b"O", b"B", b"H"]) + b"\0\0\0" + b"abcd"))
         data = c04.mini_pel(creator, secs)
@@ -198,7 +205,7 @@ def run(run, model, proof):
     rng = run.rng
     thorough = run.tier == "thorough"
     run.rule = RULE
-    for _ in range(60 if thorough else 6):
+    for _ in range(100 if thorough else 12):
         registry_history(run, model, rng)
     n = 2500 if thorough else 160
     for i in range(n):
